@@ -309,7 +309,7 @@ fn opts(rng: &mut Rng, sub: u64) -> SimOpts {
     // The workload stream is independent of this one, so re-derive the class from the same sub-seed.
     let mut wr = Rng::stream(sub, "workload");
     let sequential = is_quiescent(&gen(&mut wr, sub)) || rng.chance(1, 6);
-    SimOpts { io_enabled: !sequential && rng.chance(1, 2), step_cap: 60_000, max_in_flight: if sequential { 1 } else { 4 }, gate_first: true, observe_all: true, reference: true }
+    SimOpts { io_enabled: !sequential && rng.chance(1, 2), step_cap: 60_000, max_in_flight: if sequential { 1 } else { 4 }, gate_first: sequential || rng.chance(1, 2), observe_all: true, reference: true }
 }
 
 fn imports_of(wl: &Workload) -> Vec<(usize, usize)> {
